@@ -452,6 +452,28 @@ run_one (const char *config_file, const char *address,
       if (violations)
         return RC_VIOLATION;
 
+      if (k % 2)
+        {
+          /* R24, second form: the caller goes away instead of retrying; its place in the queue must go with it and
+           * the bus must survive */
+          char want[256];
+          const char *slash = strchr (expect_after, '/');
+          (void) slash;
+          dbus_message_unref (reply);
+          dbus_connection_close (who->conn);
+          for (tries = 0; tries < 20; tries++)
+            pump ();
+          who->conn = NULL;
+          snprintf (want, sizeof want, "%s", expect_after);
+          observe (after, sizeof after);
+          if (strcmp (after, want) != 0)
+            {
+              violation ("[k=%d] after NoMemory and the caller's disconnect the queue is [%s], expected [%s]", k, after, want);
+              return RC_VIOLATION;
+            }
+          return RC_OK_NOMEM;
+        }
+
       /* R24: the same request, retried with memory available, must succeed with its full effects */
       dbus_message_unref (reply);
       reply = NULL;
